@@ -80,5 +80,10 @@ NtpGet(rtp, t, remNs) ==
   /\ remNs >= 0 - 2 /\ remNs <= 2
   /\ UNCHANGED tvarsA
 
+\* end to end (real client, real server): when the client returns an absolute time for a packet,
+\* it is the writer's for that packet, to the millisecond - a sender report applies to the stream
+\* whose SSRC it names and to no other
+NtpE2E(returned, diffMs) == (returned => (diffMs >= 0 - 1 /\ diffMs <= 1)) /\ UNCHANGED tvarsA
+
 NtpInv(diffNs) == diffNs >= 0 - 1 /\ diffNs <= 1 /\ UNCHANGED tvarsA
 =============================================================================
